@@ -109,6 +109,11 @@ func c19Gen(tier string, seed int64) []fw.Case {
 		add(c19Desc{Kind: "write", Role: bothRoles[i%2], N: 1200, Defl: i%4 < 2}, fmt.Sprintf("write-long/%s", bothRoles[i%2]))
 		add(c19Desc{Kind: "read", Role: bothRoles[i%2], N: 1200, Defl: i%4 >= 2}, fmt.Sprintf("read-long/%s", bothRoles[i%2]))
 	}
+	// several connections write large values at the same time through slow transports while others write and read
+	// small ones: whatever buffer a Write encodes into is its own until the message has gone out
+	for i := 0; i < tierPick(tier, 12, 80); i++ {
+		add(c19Desc{Kind: "write-concurrent", Role: bothRoles[i%2], N: 15, Conns: 5 + rng.Intn(4), Defl: i%3 == 0}, fmt.Sprintf("write-concurrent/%s", bothRoles[i%2]))
+	}
 	na := tierPick(tier, 40, 80)
 	for i := 0; i < na; i++ {
 		add(c19Desc{Kind: "alias", Role: bothRoles[i%2], N: 30, Conns: 8 + rng.Intn(9)}, fmt.Sprintf("alias/%s", bothRoles[i%2]))
@@ -279,6 +284,8 @@ func c19Run(r *fw.R, d c19Desc) {
 		c19Read(r, d)
 	case "alias":
 		c19Alias(r, d)
+	case "write-concurrent":
+		c19WriteConcurrent(r, d)
 	case "invalid":
 		c19Invalid(r, d)
 	case "over-limit":
@@ -367,6 +374,108 @@ func c19Write(r *fw.R, d c19Desc) {
 		}
 		r.Count("values_written_and_decoded", int64(len(docs)))
 	})
+}
+
+// c19WriteConcurrent: d.Conns connections each write d.N values of 5-60 KB (strings made of one letter per
+// connection and message, so a foreign piece shows) through a transport that delivers writes in small pieces
+// with yields; two more connections write and read small values all the time (they take and return pool
+// buffers). Every message must arrive as the value that was written.
+func c19WriteConcurrent(r *fw.R, d c19Desc) {
+	r.SetSample(d)
+	ctx, cancel := context.WithTimeout(context.Background(), 90*time.Second)
+	defer cancel()
+	var wg sync.WaitGroup
+	stop := make(chan struct{})
+	var small sync.WaitGroup
+	for j := 0; j < 2; j++ {
+		small.Add(1)
+		go func(j int) {
+			defer small.Done()
+			c, peer, peerEnd, err := c19Conn(c19Desc{Role: d.Role}, d.Seed+uint64(j)+1000)
+			if err != nil {
+				return
+			}
+			defer c.CloseNow()
+			defer peerEnd.Close()
+			for i := 0; ; i++ {
+				select {
+				case <-stop:
+					return
+				default:
+				}
+				if j == 0 {
+					wsjson.Write(ctx, c, map[string]any{"small": i, "pad": strings.Repeat("s", 100+i%3000)})
+				} else {
+					peer.Send(wire.Data(wire.OpText, true, []byte(fmt.Sprintf(`{"small":%d,"pad":"%s"}`, i, strings.Repeat("r", 100+i%3000)))))
+					var v map[string]any
+					if wsjson.Read(ctx, c, &v) != nil {
+						return
+					}
+				}
+			}
+		}(j)
+	}
+	for k := 0; k < d.Conns; k++ {
+		wg.Add(1)
+		go func(k int) {
+			defer wg.Done()
+			seed := d.Seed + uint64(k)*7919
+			rng := fw.NewRand(seed)
+			p := wire.Params{Deflate: d.Defl}
+			c, _, peerEnd, err := libConn(d.Role, p, 0, xport.Plan{Seed: seed, WriteMax: 200 + rng.Intn(2000), Yield: true, NoTap: true}, xport.Plan{NoTap: true})
+			if err != nil {
+				r.Violate("C19/attach-failed", err.Error(), "")
+				return
+			}
+			defer c.CloseNow()
+			defer peerEnd.Close()
+			peer := newRawPeer(peerEnd, d.Role, p, seed)
+			peer.Start()
+			type doc struct {
+				Conn int    `json:"conn"`
+				Msg  int    `json:"msg"`
+				Fill string `json:"fill"`
+			}
+			var want []doc
+			for i := 0; i < d.N; i++ {
+				v := doc{Conn: k, Msg: i, Fill: strings.Repeat(string(rune('A'+(k*7+i)%26)), 5000+rng.Intn(55000))}
+				if err := wsjson.Write(ctx, c, v); err != nil {
+					r.Violate("C19/write-failed", fmt.Sprintf("%s: concurrent wsjson.Write failed: %v", d.Role, err), "")
+					return
+				}
+				want = append(want, v)
+			}
+			if !peer.Wait(30*time.Second, func() bool { return len(peer.Conf.Messages) >= len(want) }) {
+				r.Violate("C19/write-message-count", fmt.Sprintf("%s: %d values written, %d messages arrived", d.Role, len(want), len(peer.Conf.Messages)), "")
+				return
+			}
+			peer.Locked(func() {
+				for i, m := range peer.Conf.Messages {
+					if i >= len(want) {
+						break
+					}
+					var got doc
+					if err := json.Unmarshal(m.Data, &got); err != nil || got != want[i] {
+						at := firstDiff([]byte(got.Fill), []byte(want[i].Fill))
+						r.Violate("C19/written-value-differs/concurrent-large-writes", fmt.Sprintf("%s connection %d value %d (%d bytes of %q): arrived with conn=%d msg=%d, %d bytes of fill, first difference at %d (%.24q), decode error %v", d.Role, k, i, len(want[i].Fill), want[i].Fill[:1], got.Conn, got.Msg, len(got.Fill), at, tailFrom(got.Fill, at), err), "")
+						return
+					}
+				}
+				r.Count("large_values_written_concurrently_and_decoded", int64(len(want)))
+			})
+		}(k)
+	}
+	wg.Wait()
+	close(stop)
+	small.Wait()
+	r.Key("write-concurrent/%s/deflate=%v/conns=%d", d.Role, d.Defl, d.Conns)
+}
+
+func tailFrom(s string, at int) string {
+	if at < 0 || at > len(s) {
+		return ""
+	}
+	return s[at:]
 }
 
 type c19Struct struct {
